@@ -253,14 +253,17 @@ func runGen(c *core.Ctx, p *load.Prog, cfg genConfig) *GenAnalysis {
 				}
 				continue
 			}
-			ga.Files = append(ga.Files, ir.Root)
-			for _, d := range ir.Deps {
-				if d.EvalErr != nil {
-					c.Undecide("import scenario dependency: %v", d.EvalErr)
-					continue
+			if ir.DepErr != nil {
+				// the root was checked against an incomplete set of imported
+				// packages: nothing is derived from this scenario
+				if !evalErrs[ir.DepErr.Error()] {
+					evalErrs[ir.DepErr.Error()] = true
+					c.Undecide("import scenario dependency: %v", ir.DepErr)
 				}
-				ga.Files = append(ga.Files, d)
+				continue
 			}
+			ga.Files = append(ga.Files, ir.Root)
+			ga.Files = append(ga.Files, ir.Deps...)
 			if ir.Root.GenErr == "" && ir.Root.ParseErr == nil && ir.Root.AST != nil {
 				for _, r := range ir.Recs {
 					ga.Recs = append(ga.Recs, ga.readRecord(ir.Root, r))
